@@ -51,7 +51,7 @@ def attach_controls(w, wn, scn, link_of):
             first = int(c.get("first", 0))
             cond = C.SimTimeCondition(wn, "=", int(c["thr"]) - first, repeat=(c["rep"] if c["rep"] else False), first_time=first)
         else:
-            cond = C.TimeOfDayCondition(wn, "=", c["text"] if c.get("text") else int(c["thr"]))
+            cond = C.TimeOfDayCondition(wn, "=", c["text"] if c.get("text") else int(c["thr"]), first_day=int(c.get("fd", 0)))
         wn.add_control("ctl%d" % i, C.Control(cond, act, priority=c["prio"]))
     for i, r in enumerate(scn["rules"]):
         then = [C.ControlAction(link_of(a["link"]), "status", _status(w, a["val"])) for a in r["then"]]
